@@ -280,6 +280,49 @@ def verdict_part(chk, quick):
     chk.sample({"verdict_families": list(fams), "arrangements": len(jobs)})
 
 
+def respelled_version_part(chk, pkgs, quick):
+    """A previous version that differs from the current model only in spelling is the same model: listing it under `versions:` must
+    be accepted without any compatibility error or warning (old = base spelling, new = every site in its k-th alternative spelling,
+    and the other way round)."""
+    jobs = []
+    for pi, pkg in enumerate(pkgs):
+        st = sites(pkg)
+        alts = {(d, m): spellings(t)[1:] for d, m, t in st if not (isinstance(t, tuple) and t and t[0] == "enumvalues")}
+        base_text = model_text(pkg)[0]
+        for k in range(4):
+            ch = {s_: al[min(k, len(al) - 1)] for s_, al in alts.items() if al}
+            alt_text = model_text(pkg, ch)[0]
+            jobs.append((pi, "old-shorthand/new-alternative-%d" % k, base_text, alt_text))
+            jobs.append((pi, "old-alternative-%d/new-shorthand" % k, alt_text, base_text))
+    base = os.path.join(build.scratch(), "c13r")
+
+    def run(ij):
+        i, (pi, label, old, new) = ij
+        pkg = pkgs[pi]
+        root = os.path.join(base, "r%d" % i)
+        fs = am.package_files(pkg, targets=())
+        man = fs["%s/_package.yml" % pkg.dirname]
+        fs["old_%s/_package.yml" % pkg.dirname] = man
+        fs["old_%s/model.yml" % pkg.dirname] = old
+        fs["%s/_package.yml" % pkg.dirname] = man + "versions:\n  v0: ../old_%s\n" % pkg.dirname
+        fs["%s/model.yml" % pkg.dirname] = new
+        build.write_tree(root, fs)
+        rc, out, err = build.yardl(["validate"], cwd=os.path.join(root, pkg.dirname))
+        shutil.rmtree(root, ignore_errors=True)
+        return rc, err
+    with ThreadPoolExecutor(build.NCPU) as ex:
+        results = list(ex.map(run, enumerate(jobs)))
+    for (pi, label, old, new), (rc, err) in zip(jobs, results):
+        chk.count()
+        chk.nontriv(hash((pi, label)))
+        chk.outcome(("respelled-version", rc))
+        msgs = [l.strip() for l in err.splitlines() if "[v0]" in l or "WRN" in l or "ERR" in l]
+        if rc != 0 or msgs:
+            chk.fail("respelled-version/%s" % ("rejected" if rc != 0 else "warning"),
+                     "package %s, %s: a previous version that only differs in spelling is %s: %s" % (pkgs[pi].namespace, label, "rejected" if rc != 0 else "reported as changed", " | ".join(msgs)[:400]),
+                     {"package": pkgs[pi].namespace, "rewrite": label, "old_model": old[:6000], "new_model": new[:6000], "stderr": err[-1500:]})
+
+
 def main(tier):
     quick = tier == "quick"
     chk = Check("C13", "exploration", tier,
@@ -403,6 +446,7 @@ def main(tier):
         pr0.close()
         pr1.close()
     verdict_part(chk, quick)
+    respelled_version_part(chk, pkgs, quick)
     chk.sample({"rewrites": len(jobs), "sites": sum(len(sites(p)) for p in pkgs), "examples": [j[1] for j in jobs[:5]]})
     chk.assumptions += ["documentation comments (attached to an element) legitimately change generated docstrings and are not rewritten here",
                         "model.json is compared for pure syntax alternatives only (it records definition order)"]
